@@ -25,16 +25,16 @@ unsigned char g__ZTTSt14basic_ofstreamIcSt11char_traitsIcEE[64];
 static int64_t model_vt[8];               /* &model_vt[3] plays the vptr; vptr[-3] = offset of the virtual base basic_ios */
 int env_open_failed, env_write_failed, env_close_failed, env_mkdir_failed, env_thrown, env_writes, env_closed;
 enum { IOS_OFF = 248, STATE_OFF = 32, FILEBUF_OFF = 8 };
-static unsigned char *env_stream;
+static unsigned char *env_stream, *env_open_path, *env_write_ptr; static uint32_t env_open_mode; static uint64_t env_write_total;
 static void env_init(void){ model_vt[0] = IOS_OFF; for (int i = 0; i < 4; i++) ((unsigned char**)g__ZTTSt14basic_ofstreamIcSt11char_traitsIcEE)[i] = (unsigned char*)&model_vt[3]; }
 static uint32_t *env_state(unsigned char *self){ return (uint32_t*)(self + IOS_OFF + STATE_OFF); }
 void _ZNSt14basic_ofstreamIcSt11char_traitsIcEEC1EPKcSt13_Ios_Openmode(unsigned char *self, unsigned char *path, uint32_t mode){
-  *(unsigned char**)self = (unsigned char*)&model_vt[3]; env_stream = self;
+  *(unsigned char**)self = (unsigned char*)&model_vt[3]; env_stream = self; env_open_mode = mode; env_open_path = path;
   IN(u8, open_fails); env_open_failed = open_fails & 1;
   *env_state(self) = env_open_failed ? 4u /* failbit */ : 0u;
 }
 unsigned char *_ZSt16__ostream_insertIcSt11char_traitsIcEERSt13basic_ostreamIT_T0_ES6_PKS3_l(unsigned char *os, unsigned char *s, uint64_t n){
-  IN(u8, write_fails); env_writes++;
+  IN(u8, write_fails); env_writes++; env_write_total += n; if (env_writes == 1) env_write_ptr = s;
   if (write_fails & 1) { env_write_failed = 1; *env_state(os) |= 1u /* badbit: failed or short write */; }
   return os;
 }
@@ -77,6 +77,10 @@ def build(ctx):
   VASSERT(!failed || env_thrown, "write_file: a failed open, a failed or short write, or a failed flush/close makes the call leave by throwing sbe_error (=> diagnostic, non-zero exit)");
   VASSERT(failed || !env_thrown, "write_file: without any I/O failure the call returns normally");
   VASSERT(env_open_failed || env_thrown || (env_writes >= 1 && env_closed), "write_file: on the success path the data was written and the stream closed before returning");
+  VASSERT(env_open_path == pathstr, "write_file opens the file it was asked to write");
+  /* libstdc++ _Ios_Openmode: app=1 ate=2 binary=4 in=8 out=16 trunc=32; an ofstream opened without app and without in (or with trunc) truncates: previous content of a populated directory cannot survive */
+  VASSERT((env_open_mode & 1u) == 0 && ((env_open_mode & 8u) == 0 || (env_open_mode & 32u) != 0), "write_file truncates an existing file (no append / read-write-without-trunc mode): re-compiling into a populated directory yields the same bytes as into a fresh one");
+  VASSERT(env_open_failed || env_thrown || (env_write_ptr == data && env_write_total == 4), "write_file: on the success path exactly the given bytes (all n of them, from the start) were handed to the stream");
 """
         hs.append(P.Harness("write_file_cxx%s" % std, hgen.harness([u], body, pre=ENV), [u], unwind=3, extra_flags=["--no-standard-checks"], cap=120,
                             desc="fs_provider::write_file under every failure pattern of {open, write, close}", bounds={"failure patterns": "all 8 combinations (nondeterministic stubs)", "std": "c++" + std}))
